@@ -129,6 +129,52 @@ func newLockAnalysis(w *World, pkgRel string) (*lockAnalysis, error) {
 		a.Funcs[r.Name] = map[*ssa.Function]bool{}
 		a.visit(r.Fn, "", "")
 	}
+	// goroutines started by library packages of the repository on behalf of this binary: every `go` statement in a
+	// function of another package that one of the roots reaches is a root as well (to a fix-point)
+	isRoot := map[*ssa.Function]bool{}
+	for _, r := range a.Roots {
+		isRoot[r.Fn] = true
+	}
+	for changed := true; changed; {
+		changed = false
+		var fns []*ssa.Function
+		for _, r := range a.Roots {
+			for fn := range a.Funcs[r.Name] {
+				if fn.Pkg != a.pkg && (fn.Parent() == nil || fn.Parent().Pkg != a.pkg) {
+					fns = append(fns, fn)
+				}
+			}
+		}
+		sort.Slice(fns, func(i, j int) bool { return fns[i].String() < fns[j].String() })
+		for _, fn := range fns {
+			for _, b := range fn.Blocks {
+				for _, in := range b.Instrs {
+					g, ok := in.(*ssa.Go)
+					if !ok {
+						continue
+					}
+					var c *ssa.Function
+					if sc := g.Call.StaticCallee(); sc != nil {
+						c = sc
+					} else if mc, ok := g.Call.Value.(*ssa.MakeClosure); ok {
+						c = mc.Fn.(*ssa.Function)
+					}
+					if c == nil || isRoot[c] || !w.IsRepoFunc(c) {
+						continue
+					}
+					isRoot[c] = true
+					nr := lsRoot{Name: "go:" + c.Name(), Fn: c, Self: true} // started from per-frame code: may overlap its own previous instance
+					a.Roots = append(a.Roots, nr)
+					a.root = nr.Name
+					if a.Funcs[nr.Name] == nil {
+						a.Funcs[nr.Name] = map[*ssa.Function]bool{}
+					}
+					a.visit(c, "", "")
+					changed = true
+				}
+			}
+		}
+	}
 	return a, nil
 }
 
